@@ -112,9 +112,19 @@ def run(ctx, chk):
     if reach_cond is not None and disc_cond is not None:
         a1 = {a for a in f_atoms(reach_cond) if "topology" in a}
         a2 = {a for a in f_atoms(disc_cond) if "topology" in a}
-        chk.ob("C03.same-predicate", "reachability update and subnet scan use the same "
-               "connectivity atom (same matrix, same argument roles)", a1 == a2 and len(a1) == 1,
-               f"L2 uses {sorted(a1)}, L3 uses {sorted(a2)}", "nasim/envs/network.py")
+        if not a1 or not a2:
+            # one of the two conditions has no connectivity test of its own (it may range over a
+            # precomputed list): whether that side is right is the L2 / L3 obligation above; there
+            # is nothing to compare here
+            chk.undecided("C03.same-predicate", "reachability update and subnet scan use the same "
+                          "connectivity atom (same matrix, same argument roles)",
+                          f"L2 uses {sorted(a1)}, L3 uses {sorted(a2)}: one side has no "
+                          "connectivity test in its store condition", "nasim/envs/network.py")
+        else:
+            chk.ob("C03.same-predicate", "reachability update and subnet scan use the same "
+                   "connectivity atom (same matrix, same argument roles)",
+                   a1 == a2 and len(a1) == 1,
+                   f"L2 uses {sorted(a1)}, L3 uses {sorted(a2)}", "nasim/envs/network.py")
     # discovery is gated by G5 (scan run on a compromised host with access): C02.gate G5
     cf = facts(ctx, "SubnetScan")
     chk.ob("C03.L3.gate", "SubnetScan: success requires G5 (compromised target, required access)",
@@ -160,6 +170,9 @@ def check_result_maps(chk, cf):
                 ok = ok and cn.show(fk) == EACH and \
                     not [c for c in fpc[len(pre):] if c[0] not in ("inloop", "fact")]
                 detail = f"True under {f_show(cond)}; required {f_show(want)}"
+                if cn.show(k) != EACH or cn.show(fk) != EACH:
+                    detail += f"; True stored for {cn.show(k)[:120]}, the default False for " \
+                              f"{cn.show(fk)[:120]} (required: {EACH})"
             chk.ob("C03.L3.maps",
                    f"SubnetScan: result.{field}[a] is True exactly for "
                    f"{'newly ' if extra else ''}discovered addresses", ok, detail,
